@@ -618,3 +618,39 @@ func TestAllCutSets(t *testing.T) {
 	}
 	harness.Exhaustive("assembler-segmentation", "level A: all 2^(n-1) cut sets of every single small request (<= 16 B) and of request pairs (<= 20 B); all single and double cuts of the longer ones", n)
 }
+
+// ---------------------------------------------------------------------------
+// one connection that lives long: hundreds to thousands of requests through one assembler (one server connection), cut into
+// segments of cycling lengths so that requests arrive whole, fragmented and several per read - the 1st like the 342nd and the 1024th
+
+func genLongSeg(t *rapid.T, level string, sizes []int) segCase {
+	c := segCase{Level: level, DevSeed: rapid.Uint64().Draw(t, "dev_seed")}
+	n := rapid.SampledFrom(sizes).Draw(t, "nrequests")
+	fcs := rapid.SliceOfN(rapid.SampledFrom(spec.Functions), 1, 6).Draw(t, "fcs")
+	for i := 0; i < n; i++ {
+		r := small(fcs[i%len(fcs)], i%50)
+		r.Tx = uint16(i)
+		c.Requests = append(c.Requests, r)
+	}
+	total := 0
+	for _, r := range c.Requests {
+		total += len(spec.EncodeRequest(spec.TCP, r))
+	}
+	steps := rapid.SliceOfN(rapid.IntRange(1, 40), 1, 6).Draw(t, "segment_lengths")
+	for pos, i := 0, 0; ; i++ {
+		pos += steps[i%len(steps)]
+		if pos >= total {
+			break
+		}
+		c.Cuts = append(c.Cuts, pos)
+	}
+	return c
+}
+
+var chkLongA = harness.Define("assembler-segmentation", func(t *rapid.T) segCase { return genLongSeg(t, "A", []int{350, 1100, 2100}) }, runSeg)
+var chkLongB = harness.Define("server-segmentation", func(t *rapid.T) segCase { return genLongSeg(t, "B", []int{350, 1100}) }, runSeg)
+
+func TestLongLivedConnection(t *testing.T) {
+	chkLongA.Rapid(t, harness.Pick(8, 120))
+	chkLongB.Rapid(t, harness.Pick(1, 12))
+}
